@@ -116,6 +116,39 @@ func Run(r *core.Run) {
 		}
 		plans = append(plans, p)
 	}
+	// the same first-round deviations against a party that has not started yet: everything sent to it arrives
+	// before its Start(), which then works through the stored messages (and the next round's checks) itself
+	{
+		frt := map[string]map[string]bool{}
+		var lateCases []fault.Case
+		for _, c := range cases {
+			k := fmt.Sprintf("%s/%d", c.Scenario, c.Deviator)
+			if frt[k] == nil {
+				frt[k] = fault.FirstRoundTypes(c.Scenario, c.Deviator)
+			}
+			if !frt[k][c.Dev.MsgType] || c.Dev.Occ > 0 {
+				continue
+			}
+			if !full && !(c.Dev.Op == "plus-one" || c.Dev.Op == "zero" || c.Dev.Op == "drop-last" || c.Dev.Op == "removed") {
+				continue
+			}
+			victim := 0
+			if c.Deviator == 0 {
+				victim = 1
+			}
+			if strings.Contains(c.Scenario, "resharing") {
+				victim = 2 // a new-committee member (old members are nodes 0..1, new ones follow)
+				if c.Deviator == 2 {
+					victim = 3
+				}
+			}
+			lc := c
+			lc.LateStart = victim + 1
+			lateCases = append(lateCases, lc)
+		}
+		cases = append(cases, lateCases...)
+		r.Set("l1_late_start_cases", len(lateCases))
+	}
 	// crafted relations: the deviator must be the last mover of its round in FIFO order (highest index
 	// of its committee) for "minus the sum of the others"
 	for _, cp := range []struct {
@@ -168,6 +201,9 @@ func Run(r *core.Run) {
 		}
 		if !o.Applied {
 			cls = "deviation-point-not-reached"
+		}
+		if c.LateStart > 0 {
+			c.Scenario += fmt.Sprintf("+node-%d-starts-last", c.LateStart-1)
 		}
 		rec := map[string]interface{}{"scenario": c.Scenario, "deviator": c.Deviator, "deviation": c.Dev, "outcome": o}
 		slot := c.Dev.MsgType + "/" + c.Dev.Field
